@@ -358,11 +358,25 @@ def factor_lineages(ctx, graphs, realisations):
                     for u in (F if free else ()):
                         calls.append(("refixed", dict(kw, **{jg.name(u): vals[u]}), False))
                         break
+                    # positional passing: values in the order of the object's parameter names; one value too many is refused
+                    # (also by an object that has no parameter left)
+                    try:
+                        pnames = list(obj.get_parameter_names())
+                    except Exception:
+                        pnames = None
+                    if pnames is not None and set(pnames) == set(kw):
+                        pos = tuple(kw[n] for n in pnames)
+                        if pos:
+                            calls.append(("positional", pos, False))
+                        calls.append(("positional_toomany", pos + (np.ones(1),), True))
                     for what, k, malformed in calls:
-                        given = sorted(loc[u] for u in loc if jg.name(u) in k)
+                        if isinstance(k, tuple):
+                            given = sorted(loc[u] for u in free) if what == "positional" or free else []
+                        else:
+                            given = sorted(loc[u] for u in loc if jg.name(u) in k)
                         try:
                             with quiet():
-                                out = obj.logd(**k)
+                                out = obj.logd(*k) if isinstance(k, tuple) else obj.logd(**k)
                             ok = _close(out, exp)
                             events.append({"e": "logd", "obj": oid, "given": given, "outcome": "value", "value_ok": bool(ok), "malformed": malformed,
                                            "call": what})
@@ -426,7 +440,7 @@ def run(ctx):
     if not ft:
         raise MachineryError("no stand-alone conditional factor was exercised")
     okf = validate_lineages(ctx, ft, "standalone-factors")
-    for need_call in ("complete", "complete_reversed", "missing", "misnamed", "surplus", "refixed"):
+    for need_call in ("complete", "complete_reversed", "missing", "misnamed", "surplus", "refixed", "positional", "positional_toomany"):
         if not ctx.facets.get("factor_call/" + need_call):
             raise MachineryError("vacuous stand-alone factor facet: no %s call" % need_call)
     if ctx.tier == "thorough":
